@@ -118,7 +118,16 @@ class _DtypeOf(Marker):
     """x.dtype: the element type of the array x (known, or 'that of the caller's array')"""
     def __init__(self, arr):
         Marker.__init__(self, 'dtype')
-        self.kind = arr.dt if arr.dt in ('f', 'i') else 'inherit'
+        # 'that of the caller's array' only for an array handed in as it is (possibly sliced or gathered): the element type of a computed value is whatever
+        # the computation gives, which is not tracked
+        plain = False
+        if arr.poly.is_monomial():
+            (m_, c_), = arr.poly.t.items()
+            if c_ == 1 and len(m_) == 1 and m_[0][1] == 1:
+                a_ = m_[0][0]
+                plain = a_[0] == 'sym' or (a_[0] == 'fn' and a_[1] in ('at', 'slice', 'rev') and len(alg.leaf_syms(arr.poly)[0]) >= 1
+                                           and not (alg.leaf_syms(arr.poly)[1] - {'at', 'slice', 'rev', 'argsort', 'len'}))
+        self.kind = arr.dt if arr.dt in ('f', 'i') else ('inherit' if plain else None)
         self.src = tuple(sorted({str(x_).split('@')[0] for x_ in alg.leaf_syms(arr.poly)[0]})) if self.kind == 'inherit' else None
 
 
